@@ -394,6 +394,14 @@ func run(prop, tier string, seed uint64) int {
 				mu.Lock()
 				if isTimeout {
 					inconclusive = append(inconclusive, fmt.Sprintf("watchdog: case %d (%s) did not finish in %ds", open, j.v.Name, batchTimeout))
+				} else if isOOM && absurdAllocation(prop, string(outb)) {
+					// not the machine's limit: one block of tens of gigabytes requested while a few megabytes
+					// are in use, on a workload whose inputs are all valid and small - a length read from the wrong memory
+					founds = append(founds, found{
+						v:       violation{Detector: "crash", Keys: map[string]any{"func": topRepoFrame(string(outb)), "kind": "absurd_allocation"}, Msg: tail},
+						rec:     record{Case: open, Variant: j.v.Name},
+						variant: j.v.Name,
+					})
 				} else if isOOM {
 					inconclusive = append(inconclusive, fmt.Sprintf("memory limit: case %d (%s)", open, j.v.Name))
 				} else {
@@ -672,6 +680,27 @@ func readLog2(path string) (recs []record, open int, hung int) {
 		}
 	}
 	return recs, open, hung
+}
+
+var reAllocBlock = regexp.MustCompile(`cannot allocate (\d+)-byte block \((\d+) in use\)`)
+
+// absurdAllocation reports whether an out-of-memory death is a single request
+// of >= 64 GiB made while < 1 GiB was in use, in a property whose workloads
+// only feed valid inputs of a few megabytes (the hostile-input properties C13,
+// C14, C18, C20 are excluded: there a size read from damaged bytes is possible
+// without the property being violated).
+func absurdAllocation(prop, out string) bool {
+	switch prop {
+	case "C13", "C14", "C18", "C20":
+		return false
+	}
+	m := reAllocBlock.FindStringSubmatch(out)
+	if m == nil {
+		return false
+	}
+	block, _ := strconv.ParseInt(m[1], 10, 64)
+	inUse, _ := strconv.ParseInt(m[2], 10, 64)
+	return block >= 64<<30 && inUse < 1<<30
 }
 
 func crashKind(out string) string {
